@@ -16,12 +16,12 @@ import (
 type FrameDesc struct {
 	Block int `json:"block"` // -1 header
 
-	Pfx      int64 `json:"pfx"`  // value of the 4-byte prefix
-	HLen     int64 `json:"hlen"` // BlobHeader bytes in the stream
-	HdrOK    bool  `json:"hdr_ok"`
-	Ty       int   `json:"ty"` // 0 OSMHeader, 1 OSMData, 2 other
+	Pfx      int64  `json:"pfx"`  // value of the 4-byte prefix
+	HLen     int64  `json:"hlen"` // BlobHeader bytes in the stream
+	HdrOK    bool   `json:"hdr_ok"`
+	Ty       int    `json:"ty"` // 0 OSMHeader, 1 OSMData, 2 other
 	TyName   string `json:"ty_name,omitempty"`
-	Datasize int64 `json:"datasize"`
+	Datasize int64  `json:"datasize"`
 
 	BLen    int64 `json:"blen"`
 	BlobOK  bool  `json:"blob_ok"`
